@@ -65,7 +65,7 @@ PROPS = {
     'C08': dict(traits=['Hash'], theorems=['DW.C08_validated', 'DW.C08_transcript', 'DW.C08_iff'], enums=['skip', 'fieldopts', 'foreign'], configs_quick=['default', 'safe', 'zod'], design='7/C08'),
     'C09': dict(tables=True, traits=['Clone', 'Copy'], theorems=['DW.C09_validated', 'DW.C09_fieldwise', 'DW.C09_shortcut', 'DW.C09_union', 'DW.C09_copy_marker'],
                 enums=['bounds', 'skip', 'foreign'], configs_quick=['default', 'safe', 'zod'], design='7/C09'),
-    'C10': dict(traits=['Debug'], theorems=['DW.C10_validated', 'DW.C10_transcript', 'DW.C10_names'], enums=['debug', 'skip', 'fieldopts', 'foreign'], configs_quick=['default', 'safe', 'zod'], design='7/C10'),
+    'C10': dict(traits=['Debug'], theorems=['DW.C10_validated', 'DW.C10_transcript', 'DW.C10_names', 'DW.C10_text', 'DW.Fmt.render_struct', 'DW.Fmt.render_tuple'], enums=['debug', 'skip', 'fieldopts', 'foreign'], configs_quick=['default', 'safe', 'zod'], design='7/C10'),
     'C11': dict(traits=['Default'], theorems=['DW.C11_body', 'DW.C11_validated'], enums=['default', 'foreign'], configs_quick=['default', 'safe', 'zod'], design='7/C11'),
     'C12': dict(tables=True, traits=['PartialEq', 'PartialOrd', 'Ord'], theorems=['DW.C12_validated', 'DW.C12_no_ub_eq', 'DW.C12_no_ub_ord', 'DW.C12_safe_no_unsafe'],
                 enums=['incomparable', 'discriminants'], configs_quick=['default', 'safe', 'nightly', 'zod'], unsafe_scan=True, design='7/C12'),
